@@ -485,3 +485,50 @@ package txmgr
 //@   ensures err != nil ==> flags == nil
 //@   loop#1 modifies &cred.outPoint, &cred.amount, &cred.flags, &cred.maturity, &cred.scriptHash, cred.block
 //@   loop#2 modifies &cred.outPoint, &cred.amount, &cred.flags, &cred.maturity, &cred.scriptHash, cred.block
+
+// ---------------------------------------------------------------------------------------------
+// P3/P4 (C09): settling and conflict removal.
+//@ define M(tx, s) = B(tx, s.bucketMeta.nsUnmined)
+//@ define MI(tx, s) = B(tx, s.bucketMeta.nsUnminedInputs)
+//@ define MC(tx, s) = B(tx, s.bucketMeta.nsUnminedCredits)
+
+// every input's marker is gone after its iteration; nothing else in the bucket changes in that iteration
+//@ func (*UtxoStore).deleteUnminedInputs
+//@   props C09 C18 C19
+//@   requires s != nil && s.bucketMeta != nil && tx != nil && rec != nil && txInsOK(rec)
+//@   modifies bmapI(B(tx, s.bucketMeta.nsUnminedInputs))
+//@   loop#1 step !bhasI(B(tx, s.bucketMeta.nsUnminedInputs), canonicalOutPoint(&rec.MsgTx.TxIn[iter_].PreviousOutPoint.Hash, rec.MsgTx.TxIn[iter_].PreviousOutPoint.Index)) || old(!bhasI(B(tx, s.bucketMeta.nsUnminedInputs), canonicalOutPoint(&rec.MsgTx.TxIn[iter_].PreviousOutPoint.Hash, rec.MsgTx.TxIn[iter_].PreviousOutPoint.Index)))
+//@   loop#1 step bsameExceptI(B(tx, s.bucketMeta.nsUnminedInputs), canonicalOutPoint(&rec.MsgTx.TxIn[iter_].PreviousOutPoint.Hash, rec.MsgTx.TxIn[iter_].PreviousOutPoint.Index))
+
+// every pending credit of the transaction is deleted (one per output index)
+//@ func (*UtxoStore).deleteUnminedCredits
+//@   props C09 C18 C19
+//@   requires s != nil && s.bucketMeta != nil && tx != nil && rec != nil
+//@   modifies bmapI(B(tx, s.bucketMeta.nsUnminedCredits))
+//@   loop#1 step !bhasI(B(tx, s.bucketMeta.nsUnminedCredits), canonicalOutPoint(&rec.Hash, uint32(iter_)))
+//@   loop#1 step bsameExceptI(B(tx, s.bucketMeta.nsUnminedCredits), canonicalOutPoint(&rec.Hash, uint32(iter_)))
+
+//@ func (*UtxoStore).removeUnminedGameHistory
+//@   props C09 C10
+//@   trusted
+//@   modifies bmapI(B(tx, s.bucketMeta.nsUnminedGameHistory))
+
+//@ func readRawUnmined
+//@   props C09 C19
+//@   requires rec != nil
+//@   modifies &rec.Received, &rec.MsgTx
+
+// conflict chain removal: the record passed in must be keyed in the pending bucket by ITS OWN hash (the recursion
+// re-reads spenders from the bucket and must restore that link), and is gone afterwards.  Termination of the
+// recursion is not proved.
+//@ func (*TxStore).removeConflict
+//@   props C09 C19
+//@   requires s != nil && s.bucketMeta != nil && s.utxoStore != nil && s.utxoStore.bucketMeta != nil && tx != nil && rec != nil && txInsOK(rec)
+//@   requires sameRef(s.bucketMeta, s.utxoStore.bucketMeta)
+//@   requires bhasI(B(tx, s.bucketMeta.nsUnmined), rec.Hash)
+//@   requires miWFI(B(tx, s.bucketMeta.nsUnminedInputs))
+//@   modifies *
+//@   ensures err == nil ==> !bhasI(B(tx, s.bucketMeta.nsUnmined), rec.Hash)
+//@   ensures miWFI(B(tx, s.bucketMeta.nsUnminedInputs))
+//@   loop#1 invariant rec != nil && s != nil && s.bucketMeta != nil && s.utxoStore != nil && s.utxoStore.bucketMeta != nil && sameRef(s.bucketMeta, s.utxoStore.bucketMeta) && txInsOK(rec) && miWFI(B(tx, s.bucketMeta.nsUnminedInputs))
+//@   loop#2 invariant rec != nil && s != nil && s.bucketMeta != nil && s.utxoStore != nil && s.utxoStore.bucketMeta != nil && sameRef(s.bucketMeta, s.utxoStore.bucketMeta) && txInsOK(rec) && miWFI(B(tx, s.bucketMeta.nsUnminedInputs))
